@@ -223,7 +223,8 @@ theorem fi_runHandle {st st' : State} {x : Handle} {o : Out} (h : FInv st) (w : 
     | sleepDone f =>
       simp only [Option.some.injEq, Prod.mk.injEq] at hs
       obtain ⟨rfl, _⟩ := hs
-      refine finv_resolveFut h1 f .result rfl ?_
+      refine finv_resolveFut h1 f .result rfl
+        (h.role_lt f .sleep (.inr (.inr (.inl hxc)))) (by simp) ?_
       intro _ t g u s e hlib hb
       rcases h1.sj_blk t g u s e f hlib hb with hm | hm
       · have hr : HasRole st f .sleep := .inr (.inr (.inl hxc))
@@ -346,7 +347,7 @@ theorem finv_step {st st' : State} {e : Ev} {o : Out} (h : FInv st) (w : WF st)
       obtain ⟨rfl, _⟩ := hs
       have hu : st.userFut f = true := by
         cases hu : st.userFut f <;> simp_all
-      refine finv_resolveFut h f .result rfl ?_
+      refine finv_resolveFut h f .result rfl (h.role_lt f .user hu) (by simp) ?_
       intro _ t g u s e hlib hb
       rcases h.sj_blk t g u s e f hlib hb with hm | hm
       · have := h.role_uniq f (.hw u) .user hm hu
@@ -559,7 +560,7 @@ theorem finv_step {st st' : State} {e : Ev} {o : Out} (h : FInv st) (w : WF st)
         split at hs
         · simp only [Option.some.injEq, Prod.mk.injEq] at hs
           obtain ⟨rfl, _⟩ := hs
-          refine finv_resolveFut h sf .result rfl ?_
+          refine finv_resolveFut h sf .result rfl (h.role_lt sf (.start t) hsf) (by simp) ?_
           intro _ t' g u s e hlib hb
           rcases h.sj_blk t' g u s e sf hlib hb with hm | hm
           · have := h.role_uniq sf (.hw u) (.start t) hm hsf
